@@ -180,6 +180,13 @@ var pathGens = map[string]func(n int) string{
 	"lone-continuation":  func(n int) string { return rep("\x85", n) },
 	"nul-after-formula":  func(n int) string { return "a + b" + rep("\x00", n) + " ) ) ] 'open" },
 	"nul-run":            func(n int) string { return rep("\x00", n) },
+	// evaluation-side shapes: work that must stay proportional to the size of the formula
+	"nested-spread":      func(n int) string { return rep("max([", n) + "1" + rep("]...)", n) },
+	"assert-chain":       func(n int) string { return "dm" + rep("!.k", n) },
+	"assert-call-chain":  func(n int) string { return rep("idm(", n) + "dm" + rep(")!.k", n) },
+	"nested-conditional": func(n int) string { return rep("(a ? ", n) + "1" + rep(" : 2)", n) },
+	"nested-coalesce":    func(n int) string { return rep("(n ?? ", n) + "1" + rep(")", n) },
+	"nested-assign-read": func(n int) string { return rep("($l = ", n) + "1" + rep(" + ($l ?? 0))", n) },
 }
 
 func pathSizes() []int {
